@@ -41,7 +41,7 @@ SHAPES = [
 
 def plan(tier, seed):
     n = 16
-    per = 260 if tier == "quick" else 3000
+    per = 2000 if tier == "quick" else 15000
     return [{"name": "s%02d" % i, "shard": i, "cases": per, "timeout": 7000} for i in range(n)]
 
 
